@@ -183,4 +183,7 @@ def gen(chk):
 
 def run(chk):
     impl, model, ie, me = runners(chk)
+    import kernel_gen
+    # the range test behind every coordinate parser, proved over the regenerated code (all 2^256 strings)
+    kernel_gen.single_obligation(chk, 'secp256k1_fe_impl_set_b32_limit')
     chk.coq(); gen(chk); chk.correspond(impl, model, 'codecs')
